@@ -470,12 +470,15 @@ func RuntimeHash(state *core.BuildState, target *core.BuildTarget, testRun int) 
 	hash := append(RuleHash(state, target, true, false), RuleHash(state, target, true, true)...)
 	hash = append(hash, state.Hashes.Config...)
 	h := sha1.New()
-	for src := range core.IterRuntimeFiles(state.Graph, target, true, target.TestDir(testRun)) {
+	for src, dest := range core.IterRuntimeFiles(state.Graph, target, false, "") {
 		result, err := state.PathHasher.Hash(src, false, true, false)
 		if err != nil {
 			return result, err
 		}
 		h.Write(result)
+		// The name the file has in the test directory matters as much as its contents.
+		h.Write([]byte(dest))
+		h.Write([]byte{0})
 	}
 	return append(hash, h.Sum(nil)...), nil
 }
